@@ -13,36 +13,43 @@ vars == <<apiVars, osVars>>
 TraceInit == ApiInit /\ OsInit
 
 Consume == step' = step + 1
+ApiSame == UNCHANGED <<live, heaps, dflt, backing, flux, arenas, osfail, cfg>>
+
+\* does this return hand a (written) block to the program?
+ReturnsBlock(ev) == /\ ev.t \in DOMAIN flux /\ flux[ev.t] # NoCall
+                    /\ flux[ev.t].op \in (AllocOps \cup ReallocOps) /\ ~ev.null
 
 TraceNext ==
   /\ step < Len(Tr)
   /\ LET ev == Tr[step + 1] IN
-     CASE ev.e = "call" -> Call(ev) /\ OsOnCall(ev)
-       [] ev.e = "ret" -> Ret(ev) /\ OsOnRet(ev)
-       [] ev.e = "write" -> Write(ev) /\ UNCHANGED osVars
-       [] ev.e = "checkall" -> CheckAll(ev) /\ UNCHANGED osVars
-       [] ev.e = "arena" -> ArenaNew(ev) /\ UNCHANGED osVars
-       [] ev.e = "tstart" -> ThreadStart(ev) /\ UNCHANGED osVars
-       [] ev.e = "tdone" -> ThreadDone(ev) /\ UNCHANGED osVars
+     CASE ev.e = "call" -> Call(ev) /\ OsSkip
+       [] ev.e = "ret" -> Ret(ev) /\ (IF ReturnsBlock(ev) THEN OsBlockReturned(ev.a, ev.us, ev.wr) ELSE OsSkip)
+       [] ev.e = "write" -> Write(ev) /\ (IF ev.id \in LiveIds THEN OsWrite(live[ev.id].a, ev.wr) ELSE OsSkip)
+       [] ev.e = "checkall" -> CheckAll(ev) /\ OsSkip
+       [] ev.e = "arena" -> ArenaNew(ev) /\ OsSkip
+       [] ev.e = "tstart" -> ThreadStart(ev) /\ OsSkip
+       [] ev.e = "tdone" -> ThreadDone(ev) /\ OsSkip
        [] ev.e = "os" -> /\ Consume
-                         /\ OsEvent(ev)
+                         /\ OsEvent(ev, live)
                          /\ IF ev.ok THEN UNCHANGED osfail ELSE OsRefused
                          /\ UNCHANGED <<live, heaps, dflt, backing, flux, arenas, cfg>>
-       [] ev.e = "clock" -> Consume /\ OsClock(ev) /\ UNCHANGED <<live, heaps, dflt, backing, flux, arenas, osfail, cfg>>
+       [] ev.e = "clock" -> Consume /\ OsClock(ev) /\ ApiSame
+       [] ev.e = "areas" -> Consume /\ OsAreas(ev, live) /\ ApiSame
+       [] ev.e = "mark" -> Consume /\ OsMark(ev, live) /\ ApiSame
+       [] ev.e = "quiesce" -> Consume /\ OsQuiesce(ev, live) /\ ApiSame
        [] ev.e = "cfg" -> /\ Consume
                           /\ cfg' = ev
                           /\ OsCfg(ev)
                           /\ UNCHANGED <<live, heaps, dflt, backing, flux, arenas, osfail>>
        [] ev.e = "crash" -> /\ Consume
                             /\ GD("NoCrash", ev.sig, FALSE)
-                            /\ UNCHANGED <<live, heaps, dflt, backing, flux, arenas, osfail, cfg, osVars>>
-       [] ev.e = "mark" -> Consume /\ OsMark(ev) /\ UNCHANGED <<live, heaps, dflt, backing, flux, arenas, osfail, cfg>>
+                            /\ ApiSame /\ OsSkip
        [] ev.e = "reset" -> /\ Consume
                             /\ live' = <<>> /\ heaps' = (1 :> [t |-> 0, backing |-> TRUE, arena |-> 0, desc |-> 0])
                             /\ dflt' = (0 :> 1) /\ backing' = (0 :> 1) /\ flux' = (0 :> NoCall) /\ arenas' = <<>>
                             /\ osfail' = (0 :> FALSE) /\ UNCHANGED cfg
                             /\ OsReset
-       [] ev.e = "end" -> Consume /\ UNCHANGED <<live, heaps, dflt, backing, flux, arenas, osfail, cfg, osVars>>
+       [] ev.e = "end" -> Consume /\ ApiSame /\ OsSkip
        [] OTHER -> FALSE
 
 TraceSpec == TraceInit /\ [][TraceNext]_vars
@@ -52,6 +59,6 @@ TraceAccepted ==
   /\ PrintT(<<"TVDIAMETER", TLCGet("stats").diameter - 1>>)
   /\ TLCGet("stats").diameter - 1 = Len(Tr)
 
-\* cross-layer invariants evaluated in every state of the reconstructed behaviour
-Inv == LiveWellFormed /\ HeapsOK /\ BlocksHaveHeaps
+\* invariants evaluated in every state of the reconstructed behaviour
+Inv == LiveWellFormed /\ HeapsOK /\ BlocksHaveHeaps /\ MapsDisjoint
 =============================================================================
